@@ -161,6 +161,8 @@ def run(ctx, rep):
     for (ty, m, minimum) in (("dryocbox::DryocBox", "from_bytes", 16), ("dryocbox::DryocBox", "from_sealed_bytes", 48),
                              ("dryocsecretbox::DryocSecretBox", "from_bytes", 16), ("sign::SignedMessage", "from_bytes", 64)):
         for f in cm.find_method(prog, ty, m):
+            from ..inline import inline as _inl
+            f = _inl(prog, f)       # the length guard may sit in a private helper (`split_prefix(bytes, N)?`)
             ef = edge_facts(f, cm.view_info)
             for b, kind, e in result_kind_of_ret(f):
                 if kind == "err" or b not in f.reachable(0):
